@@ -1,6 +1,7 @@
 import Driver.Wire
 import RdestModel.Swarm.Init
 import RdestModel.Swarm.Preds
+import RdestModel.Meta.Name
 import RdestModel.Sha1
 namespace Driver
 open Rdest Rdest.Wire Rdest.Swarm
@@ -208,6 +209,13 @@ def handVerdict (prop : String) (args res : List String) : Verdict :=
       if !tilingOk Rdest.Gen.PIECE_BLOCK_SIZE len blocks then vProp "T1-blocks-do-not-tile-the-piece" tag
       else if blocks ≠ model then vDiff "left" (toString model) tag
       else vOk tag
+  | ["name", hS], [out] =>
+    match parseHex hS with
+    | none => vBad hS
+    | some h =>
+      let model := String.ofList (Rdest.Meta.pieceFileName h)
+      if out = "P" then vProp "piece-file-name-panics" "name"
+      else if out ≠ model then vDiff "piece-file-name" model "name" else vOk "name"
   | ["minit", sts], [out] =>
     -- the bitfield the manager computes at Init (Peer::handle_init) vs `initBitfield`
     let stl : List Status := if sts = "-" then [] else (sts.splitOn ",").map fun t =>
